@@ -227,9 +227,20 @@ Definition set_received c x := mk_conn (c_rd c) (c_recv c) (c_send c) (c_stop c)
 Definition set_completed c x := mk_conn (c_rd c) (c_recv c) (c_send c) (c_stop c) (c_fail c) (c_inflight c) (c_queue c) (c_wire c) (c_dropped c) (c_received c) x (c_cancelled c) (c_invoked c) (c_racy c).
 Definition set_invoked c x := mk_conn (c_rd c) (c_recv c) (c_send c) (c_stop c) (c_fail c) (c_inflight c) (c_queue c) (c_wire c) (c_dropped c) (c_received c) (c_completed c) (c_cancelled c) x (c_racy c).
 
-(* _queue_reply: the send loop takes it if it is still alive, otherwise nobody will *)
+(* _completed is an asyncio.Queue(maxsize): put_nowait on a full queue raises QueueFull inside the done
+   callback, where only the event loop's exception handler sees it.  completed_maxsize is GENERATED
+   from the field definition (None = unbounded). *)
+Definition queue_full (c : conn) : bool :=
+  match completed_maxsize with
+  | None => false
+  | Some b => Nat.leb b (length (c_queue c))
+  end.
+
+(* _queue_reply: the send loop takes it if it is still alive, otherwise nobody will; on a full queue the
+   reply object is lost (it is neither written, queued nor dropped) *)
 Definition enqueue (r : N * result) (c : conn) : conn :=
-  if sender_alive (c_send c) then set_queue c (c_queue c ++ [r])
+  if sender_alive (c_send c)
+  then (if queue_full c then c else set_queue c (c_queue c ++ [r]))
   else set_dropped c (c_dropped c ++ [r]).
 
 (* The send loop, when it is not waiting in drain(): take the head of _completed and write it;
